@@ -1,5 +1,5 @@
 (* Props_C16.v — C16: custom broadcasts: delivered intact, only where allowed, invalidated promptly. *)
-From Foca Require Import Laws BcastM FocaM WireM L_Bcast L_Fill L_Members L_MembersInv Inv Reach L_Wire L_Dissem L_BacklogOps.
+From Foca Require Import Laws BcastM FocaM WireM L_Bcast L_Fill L_Members L_MembersInv Inv Reach L_Wire L_Dissem L_BacklogOps L_BroadcastBound.
 From Coq Require Import Relations.
 From Coq Require Import Sorted.
 
@@ -85,6 +85,20 @@ Theorem C16_backlog_changes_only_so (rnd : oracle) (f : @foca Id Addr HO) (i : @
   clos_refl_trans _ cstep (customs f) (customs (fst (fst (fst (step rnd f i))))).
 Proof. exact (proj2 (step_backlogs rnd f i)). Qed.
 
+(* broadcast() as one call: only Broadcast datagrams built from the current identity, at most
+   num_indirect_probes of them, none when nothing is pending *)
+Theorem C16_broadcast_bound (rnd : oracle) (f : @foca Id Addr HO) :
+  let es := snd (fst (fst (step rnd f IBroadcast))) in
+  Forall (dgram_of (identity f) (incarnation f) Broadcast) es
+  /\ len es <= num_indirect_probes (cfg f)
+  /\ (customs f = [] -> es = []).
+Proof. exact (broadcast_bound rnd f). Qed.
+
+Theorem C16_dgram_of_meaning (id : Id) (inc : N) (msg : message Id) (e : effect Id) :
+  dgram_of id inc msg e <->
+  match e with Send dst b => exists rest, b = enc_hdr (mkHeader id inc dst msg) ++ rest | _ => False end.
+Proof. reflexivity. Qed.
+
 End C16.
 
 Print Assumptions C16_backlog_operations.
@@ -96,3 +110,5 @@ Print Assumptions C16_send_shape.
 Print Assumptions C16_gate.
 Print Assumptions C16_receiver_sees_items.
 Print Assumptions C16_broadcast_empty.
+Print Assumptions C16_broadcast_bound.
+Print Assumptions C16_dgram_of_meaning.
